@@ -37,7 +37,10 @@ def make_v1(T, singles, chords, plain=(), red=1, twin=None):
 def make_v2(chords, keys, red=1, minidle=5, lkey=None):
     """chords: list of (key names, T, 'all'|'first', disabled layers, None | 'r' (the action is (unicode r)) |
     '+r' (the action is (multi <key> (unicode r)): the key shows the hold, the character every performance))."""
-    layer = {k: K(IND[k]) for k in keys}
+    ind = lambda k: IND.get(k, k)       # keys beyond a-f (large tables) deliver themselves
+    # the chord output key of entry i: the chords whose action is only a unicode character do not use one
+    cho = lambda i: CHO[sum(1 for ch in chords[:i] if not (ch[4] and ch[4][0] != "+"))]
+    layer = {k: K(ind(k)) for k in keys}
     layers = [layer]
     allkeys = list(keys)
     if lkey:
@@ -46,7 +49,7 @@ def make_v2(chords, keys, red=1, minidle=5, lkey=None):
         allkeys.append(lkey)
     ent = []
     for i, (ks, T, rel, dis, uni) in enumerate(chords):
-        act = CHO[i] if not uni else "(unicode %s)" % uni if uni[0] != "+" else "(multi %s (unicode %s))" % (CHO[i], uni[1:])
+        act = cho(i) if not uni else "(unicode %s)" % uni if uni[0] != "+" else "(multi %s (unicode %s))" % (cho(i), uni[1:])
         ent.append("(%s) %s %d %s (%s)" % (" ".join(ks), act, T,
                                             "first-release" if rel == "first" else "all-released",
                                             " ".join(cfgdesc.lname(l) for l in dis)))
@@ -55,10 +58,10 @@ def make_v2(chords, keys, red=1, minidle=5, lkey=None):
             "extra": ["(defchordsv2 %s)" % " ".join(ent)]}
     part = sorted(set(k for ch in chords for k in ch[0]))
     params = {"ver": 2, "T": 0,
-              "keys": [{"c": cfgdesc.code(k), "o": cfgdesc.code(IND[k])} for k in keys],
+              "keys": [{"c": cfgdesc.code(k), "o": cfgdesc.code(ind(k))} for k in keys],
               "part": [cfgdesc.code(k) for k in part],
               "chords": [{"ks": sorted(cfgdesc.code(k) for k in ks),
-                          "o": 0 if (uni and uni[0] != "+") else cfgdesc.code(CHO[i]),
+                          "o": 0 if (uni and uni[0] != "+") else cfgdesc.code(cho(i)),
                           "u": (uni or "").lstrip("+"), "T": T, "first": rel == "first", "dis": list(dis)}
                          for i, (ks, T, rel, dis, uni) in enumerate(chords)],
               "same": [],
@@ -267,6 +270,15 @@ def schedule_family(tier):
     for nm, first in (("s_v1_twin_e", "e"), ("s_v1_twin_a", "a")):
         F.append((nm, twin, dict(keys=[c(first), c("b"), c("c")], gaps=[0, T - 1, T + 1], hold=[6], rgaps=[0, 2],
                                  other=[c("d")] if tier != "quick" else [], allrel=tier != "quick")))
+    # capacity of the candidate list of chords v2 (16 entries, overflow ignored): a two-key chord with 17 three-key
+    # supersets, listed before them and after them; the small chord, the first-listed and the last-listed superset
+    thirds = "cdefghijklmnoprst"                                   # 17 keys; outputs x y z q w v 1-4 are not among them
+    sup = [(("a", "b", k), T, "all" if i % 2 else "first", [], "ABCDEFGHIJKLMNOPQ"[i]) for i, k in enumerate(thirds)]
+    small = (("a", "b"), T, "all", [], None)
+    for nm, tbl in (("s_v2_cap_last", sup + [small]), ("s_v2_cap_first", [small] + sup)):
+        F.append((nm, make_v2(tbl, "ab" + thirds),
+                  dict(keys=[c("a"), c("b"), c(thirds[-1])], gaps=[0, T + 1] if tier == "quick" else g3, hold=[6],
+                       rgaps=[0, 2], other=[c(thirds[0])])))
     if tier != "quick":
         g4 = [0, T + 1]
         F += [
